@@ -208,6 +208,8 @@ impl AsmParser {
                 // C01 "one word per statement": so far exactly one statement per instruction / trap / data token consumed
                 0 <= self_.toks.pos() <= self_.toks.all().len(),
                 self_.air.ast@.len() == count_heads(self_.toks.all(), self_.toks.pos() as int),
+                // C17: every statement so far carries the span of its own tokens
+                forall|i: int| 0 <= i < self_.air.ast@.len() ==> stmt_span_ok(self_.toks.all(), (#[trigger] self_.air.ast@[i]).span),
             ensures
                 // the loop is left only when the token stream is exhausted
                 self_.toks.pos() == self_.toks.all().len(),
@@ -215,6 +217,23 @@ impl AsmParser {
         {
             proof { reveal_with_fuel(count_heads, 7); }
             let mut labeled_line = false;>>>
+//@sub <<<if let Some(tok) = self_.toks.next() {>>> ==> <<<let ghost p0 = self_.toks.pos();
+            if let Some(tok) = self_.toks.next() {>>>
+//@sub <<<} else {
+                if labeled_line {>>> ==> <<<proof {
+                    // C17: the statement just added carries the span of its own tokens (head p0 .. last token consumed)
+                    let all = self_.toks.all();
+                    let sp = self_.air.ast@.last().span;
+                    let k = if sp.offs.0 + sp.len == span_end(tok.span) { p0 } else { self_.toks.pos() - 1 };
+                    assert(tok == all[p0]);
+                    assert forall|m: int| p0 < m <= k implies !is_head(#[trigger] all[m]) by {
+                        assert(all.skip(p0 + 1)[m - p0 - 1] == all[m]);
+                    }
+                    assert(stmt_span_at(all, sp, p0, k)) by { reveal(stmt_span_at); }
+                    assert(stmt_span_ok(all, sp));
+                }
+            } else {
+                if labeled_line {>>>
 //@contract AsmParser_parse.c
 //@end
 
